@@ -188,6 +188,13 @@ def gen_case(rng: random.Random, tier):
             txt = '{' + txt + '}'
         case['texts'][pos] = txt
     case['asm'] = f'.org {addr}\ntst ' + ', '.join(case['texts']) + '\n'
+    if rng.random() < 0.25 and addr - 1 >= gstart:
+        # the same statement as the second step of a macro (one pad byte in front, outside the image window): a macro
+        # step is an ordinary statement at its own address with its own size, so the constraint must decide the same
+        isa['instructions']['padx'] = {'bytecode': {'value': 0x5A, 'size': 8}}
+        isa['macros'] = {'mtst': [{'operands': {'count': 0}, 'instructions': ['padx', 'tst ' + ', '.join(case['texts'])]}]}
+        case['asm'] = f'.org {addr - 1}\nmtst\n'
+        case['via_macro'] = True
     return case
 
 
@@ -205,7 +212,7 @@ def to_model(case):
 
 
 def judge(case, ir, mr):
-    tags = ['kind=' + case['kind']]
+    tags = ['kind=' + case['kind']] + (['via-macro'] if case.get('via_macro') else [])
     actual = impl.fbytes(ir, 'out.bin') if ir['status'] == 'ok' else None
     a = ('bytes', list(actual)) if actual is not None else ('err', ir['status'])
     mi = ('bytes', mr['impl']['bytes']) if 'bytes' in mr['impl'] else ('err', mr['impl']['err'])
